@@ -10,18 +10,21 @@ Local Open Scope N_scope.
 
 (* filter_spec + filter_errors in one statement.  Input: any packetisation (items: packets of one PID, any chunking,
    any adaptation fields, any header flags) of  pointer_field + filler + one well-formed PMT section + stuffing,
-   and any non-empty request list.  With missing = requested PIDs that are neither in the PMT nor the PAT/PMT PID
-   (request order, duplicates kept):
-   - every request missing  -> no packets, error naming them;
-   - otherwise              -> packets = spec_repack (original headers in order) (pointer_field + filler +
-                               serialised section of the kept streams, section_length recomputed, CRC recomputed),
-                               error naming the missing ones iff there are any. *)
+   and any non-empty request list.  The contract is written from the property text (Spec/PmtSpec.v):
+   considered = requested PIDs other than the PAT PID and the PMT PID (request order, duplicates kept),
+   missing    = considered PIDs that no elementary stream of the PMT carries,
+   none_present = at least one PID is considered and every considered one is missing.
+   - none_present -> no packets, error naming the missing PIDs;
+   - otherwise    -> packets = spec_repack (original headers in order) (pointer_field + filler + serialised section of
+                     the kept streams, section_length recomputed, CRC recomputed), error naming the missing ones iff any.
+   (Model of the code as repaired by 4841ed3; before it the code compared |missing| with |request|, so a request such as
+   [PAT pid, absent pid] produced packets + error - replayed as a `fixed` entry of known_findings.json.) *)
 Theorem C14_filter_spec : forall c pid items want,
   wf_carrier c -> pre c = [] -> all_mine items -> Forall (wf_item pid) items ->
   concat (chunks items) = ser_payload c -> want <> [] ->
   filter_pmt_packets (ser_items pid true items) want =
   Ok (let missing := missing_of (map epid (sstreams (sec c))) pid want in
-      if len missing =? len want then (None, Some missing)
+      if none_present (map epid (sstreams (sec c))) pid want then (None, Some missing)
       else (Some (spec_repack (hdrs_of pid true items)
                     (ser_unit {| pf := pf c; pre := []; sec := filtered_sec (sec c) want; stuffing := 0 |})),
             match missing with [] => None | _ => Some missing end)).
@@ -32,7 +35,7 @@ Print Assumptions C14_filter_spec.
 Theorem C14_filter_spec_decidable : forall c pid items want, hyp_filterb c pid items = true -> want <> [] ->
   filter_pmt_packets (ser_items pid true items) want =
   Ok (let missing := missing_of (map epid (sstreams (sec c))) pid want in
-      if len missing =? len want then (None, Some missing)
+      if none_present (map epid (sstreams (sec c))) pid want then (None, Some missing)
       else (Some (spec_repack (hdrs_of pid true items)
                     (ser_unit {| pf := pf c; pre := []; sec := filtered_sec (sec c) want; stuffing := 0 |})),
             match missing with [] => None | _ => Some missing end)).
@@ -75,40 +78,65 @@ Proof. exact filtered_sec_all. Qed.
 Print Assumptions C14_filter_all_keeps_everything.
 
 (* the error contract, read off missing_of *)
+Theorem C14_considered_iff : forall pmt_pid want x,
+  In x (considered pmt_pid want) <-> In x want /\ x <> 0 /\ x <> pmt_pid.
+Proof. exact in_considered. Qed.
+Print Assumptions C14_considered_iff.
 Theorem C14_filter_errors_no_error_iff : forall have pmt_pid want,
-  missing_of have pmt_pid want = [] <-> (forall x, In x want -> In x have \/ x = 0 \/ x = pmt_pid).
+  missing_of have pmt_pid want = [] <-> (forall x, In x (considered pmt_pid want) -> In x have).
 Proof. exact missing_nil_iff. Qed.
 Print Assumptions C14_filter_errors_no_error_iff.
 Theorem C14_filter_errors_none_iff : forall have pmt_pid want,
-  len (missing_of have pmt_pid want) = len want <-> (forall x, In x want -> ~ (In x have \/ x = 0 \/ x = pmt_pid)).
-Proof. exact missing_all_iff. Qed.
+  none_present have pmt_pid want = true <->
+  considered pmt_pid want <> [] /\ (forall x, In x (considered pmt_pid want) -> ~ In x have).
+Proof. exact none_present_iff. Qed.
 Print Assumptions C14_filter_errors_none_iff.
 
-(* the three-way contract in the property's words (requested_ok have pid x := x in the PMT, or the PAT PID, or the PMT PID) *)
+(* the contract clause by clause, in the property's words; have = PIDs of the PMT's streams *)
+(* "no error when every requested PID (ignoring the PAT and PMT PIDs) is in the PMT" *)
 Theorem C14_filter_errors_all_present : forall c pid items want,
   wf_carrier c -> pre c = [] -> all_mine items -> Forall (wf_item pid) items -> concat (chunks items) = ser_payload c -> want <> [] ->
-  (forall x, In x want -> requested_ok (map epid (sstreams (sec c))) pid x) ->
+  (forall x, In x (considered pid want) -> In x (map epid (sstreams (sec c)))) ->
   filter_pmt_packets (ser_items pid true items) want =
   Ok (Some (spec_repack (hdrs_of pid true items)
               (ser_unit {| pf := pf c; pre := []; sec := filtered_sec (sec c) want; stuffing := 0 |})), None).
 Proof. exact filter_all_present. Qed.
 Print Assumptions C14_filter_errors_all_present.
+(* the corner, explicitly: ONLY the PAT and / or PMT PID requested (nothing is considered): packets and no error; the
+   emitted PMT has no elementary streams (unless a stream itself uses PID 0 or the PMT's PID, which is then kept) *)
+Theorem C14_filter_errors_only_pat_pmt_pid : forall c pid items want,
+  wf_carrier c -> pre c = [] -> all_mine items -> Forall (wf_item pid) items -> concat (chunks items) = ser_payload c -> want <> [] ->
+  considered pid want = [] ->
+  filter_pmt_packets (ser_items pid true items) want =
+    Ok (Some (spec_repack (hdrs_of pid true items)
+                (ser_unit {| pf := pf c; pre := []; sec := filtered_sec (sec c) want; stuffing := 0 |})), None) /\
+  ((forall e, In e (sstreams (sec c)) -> epid e <> 0 /\ epid e <> pid) -> sstreams (filtered_sec (sec c) want) = []).
+Proof. exact filter_only_ignored. Qed.
+Print Assumptions C14_filter_errors_only_pat_pmt_pid.
+(* "no packets plus an error when none are": at least one PID is considered and none of the considered ones is in the PMT
+   (whether or not the PAT / PMT PID was requested as well) *)
 Theorem C14_filter_errors_none_present : forall c pid items want,
   wf_carrier c -> pre c = [] -> all_mine items -> Forall (wf_item pid) items -> concat (chunks items) = ser_payload c -> want <> [] ->
-  (forall x, In x want -> ~ requested_ok (map epid (sstreams (sec c))) pid x) ->
-  filter_pmt_packets (ser_items pid true items) want = Ok (None, Some want).
+  considered pid want <> [] ->
+  (forall x, In x (considered pid want) -> ~ In x (map epid (sstreams (sec c)))) ->
+  filter_pmt_packets (ser_items pid true items) want = Ok (None, Some (considered pid want)).
 Proof. exact filter_none_present. Qed.
 Print Assumptions C14_filter_errors_none_present.
+(* "packets plus an error naming the missing PIDs when only some are" *)
 Theorem C14_filter_errors_some_present : forall c pid items want,
   wf_carrier c -> pre c = [] -> all_mine items -> Forall (wf_item pid) items -> concat (chunks items) = ser_payload c -> want <> [] ->
-  (exists x, In x want /\ requested_ok (map epid (sstreams (sec c))) pid x) ->
-  (exists x, In x want /\ ~ requested_ok (map epid (sstreams (sec c))) pid x) ->
+  (exists x, In x (considered pid want) /\ In x (map epid (sstreams (sec c)))) ->
+  (exists x, In x (considered pid want) /\ ~ In x (map epid (sstreams (sec c)))) ->
   exists missing, missing <> [] /\ missing = missing_of (map epid (sstreams (sec c))) pid want /\
     filter_pmt_packets (ser_items pid true items) want =
     Ok (Some (spec_repack (hdrs_of pid true items)
                 (ser_unit {| pf := pf c; pre := []; sec := filtered_sec (sec c) want; stuffing := 0 |})), Some missing).
 Proof. exact filter_some_present. Qed.
 Print Assumptions C14_filter_errors_some_present.
+(* the witness of audit item 3: request [PAT pid, absent pid] on the example PMT: no packets, error naming the absent PID *)
+Example C14_filter_pat_and_absent :
+  filter_pmt_packets (ser_items 481 true exf_items) [0; 9] = Ok (None, Some [9]).
+Proof. vm_compute. reflexivity. Qed.
 
 (* empty PID list: the input is returned; no packets: nothing *)
 Theorem C14_filter_empty_pids : forall p pkts, filter_pmt_packets (p :: pkts) [] = Ok (Some (p :: pkts), None).
